@@ -2,6 +2,7 @@ package c17
 
 import (
 	"context"
+	"encoding/json"
 	"crypto/sha256"
 	"fmt"
 	"math/big"
@@ -243,13 +244,20 @@ func genDistList(t *rapid.T, total, root int) ListSpec {
 	ls := genListShape(t, total)
 	for i := range ls.Logs {
 		l := &ls.Logs[i]
-		l.State = rapid.SampledFrom([]int{stUsable, stUsable, stUsable, stUsable, stUsable, stUsable, stUsable, stUsable, stUsable, stUsable, stUsable, stUsable,
-			stPending, stQualified, stReadOnly, stRetired, stRejected, stUndefined}).Draw(t, "state")
-		if rapid.IntRange(0, 2).Draw(t, "hasiv") > 0 {
-			sh := ivShapes[rapid.IntRange(0, len(ivShapes)-1).Draw(t, "ivshape")]
+		if rapid.IntRange(0, 5).Draw(t, "usable") > 0 {
+			l.State = stUsable
+		} else {
+			l.State = rapid.SampledFrom([]int{stPending, stQualified, stReadOnly, stRetired, stRejected, stUndefined}).Draw(t, "state")
+		}
+		switch rapid.SampledFrom([]int{0, 0, 1, 1, 1, 2}).Draw(t, "ivkind") {
+		case 1: // an interval that contains NotAfter
+			sh := ivShapes[rapid.IntRange(0, 4).Draw(t, "ivin")]
+			l.HasIv, l.IvStart, l.IvEnd = true, sh[0], sh[1]
+		case 2: // one that does not
+			sh := ivShapes[rapid.IntRange(5, len(ivShapes)-1).Draw(t, "ivout")]
 			l.HasIv, l.IvStart, l.IvEnd = true, sh[0], sh[1]
 		}
-		switch rapid.SampledFrom([]int{0, 0, 0, 0, 0, 0, 1, 1, 2, 3}).Draw(t, "rootkind") {
+		switch rapid.SampledFrom([]int{0, 0, 0, 0, 0, 0, 0, 1, 2, 3}).Draw(t, "rootkind") {
 		case 0:
 			l.Roots = rapid.IntRange(0, 15).Draw(t, "roots") | 1<<root
 		case 1:
@@ -283,12 +291,12 @@ func genCase2(t *rapid.T) Case2 {
 	c.Chain = ChainSpec17{Root: rapid.IntRange(0, 3).Draw(t, "root"), Inter: rapid.Bool().Draw(t, "inter"), IncludeRoot: rapid.Bool().Draw(t, "inclroot")}
 	c.List = genDistList(t, requiredTotal(c.Life), c.Chain.Root)
 	c.Subs = genSubs2(t, len(c.List.Logs))
-	c.InitRefresh = rapid.IntRange(0, 5).Draw(t, "initrefresh") > 0
+	c.InitRefresh = rapid.SampledFrom([]int{1, 1, 1, 1, 0}).Draw(t, "initrefresh") > 0
 	nref := rapid.SampledFrom([]int{0, 0, 1, 2, 3}).Draw(t, "nrefresh")
 	for i := 0; i < nref; i++ {
 		c.RefreshAtMs = append(c.RefreshAtMs, rapid.SampledFrom([]int{260, 770, 1280, 2290, 4310}).Draw(t, "refreshat"))
 	}
-	c.NoRootCheck = rapid.IntRange(0, 11).Draw(t, "norootcheck") == 0
+	c.NoRootCheck = rapid.SampledFrom([]int{0, 0, 0, 0, 0, 0, 0, 0, 0, 0, 0, 1}).Draw(t, "norootcheck") == 1
 	return c
 }
 
@@ -316,20 +324,15 @@ func distOptions(noRootCheck bool) []submission.DistributorOption {
 	return nil
 }
 
-func run2(t *testing.T, c Case2) Out2 {
+func run2(t *testing.T, c Case2, aux Aux, emit func(Out2)) {
 	out := Out2{Subs: make([]SubOut, len(c.Subs))}
 	tr := &trace{}
-	pres := make([]bool, len(c.Subs))
-	for si, s := range c.Subs {
-		pres[si] = s.Pre
-	}
-	aux := buildAux(c.Chain, c.Life, pres)
 	w := newFakeWorld(tr, c.List, aux)
 	for _, s := range c.Subs {
 		w.beh = append(w.beh, s.Beh)
 	}
 	chains := aux.Chains
-	res := vt.Run(t, watchdog, func(ctx context.Context) {
+	vt.Run(t, watchdog, func(ctx context.Context) {
 		tr.t0 = time.Now()
 		all, release := context.WithCancel(ctx)
 		defer release()
@@ -337,6 +340,7 @@ func run2(t *testing.T, c Case2) Out2 {
 		d, err := submission.NewDistributor(ll, policyObj(c.Policy), w.builder(0), nil, distOptions(c.NoRootCheck)...)
 		if err != nil {
 			out.BuildErr = err.Error()
+			emit(out)
 			return
 		}
 		var mu sync.Mutex
@@ -394,12 +398,25 @@ func run2(t *testing.T, c Case2) Out2 {
 			}(si)
 		}
 		wg.Wait()
+		out.TimedOut = ctx.Err() != nil
 		vt.Sleep(ctx, settle)
+		release()
+		out.Calls = tr.snapshot()
+		w.mu.Lock()
+		out.Roots = append([]RootsCall(nil), w.roots...)
+		w.mu.Unlock()
+		mu.Lock()
+		emit(out)
+		mu.Unlock()
 	})
-	out.TimedOut = res.TimedOut
-	out.Calls = tr.snapshot()
-	out.Roots = w.roots
-	return out
+}
+
+func aux2(c Case2) Aux {
+	pres := make([]bool, len(c.Subs))
+	for si, s := range c.Subs {
+		pres[si] = s.Pre
+	}
+	return buildAux(c.Chain, c.Life, pres)
 }
 
 // --- oracle -----------------------------------------------------------------------------------
@@ -461,11 +478,51 @@ func check2(t *testing.T, c Case2) harness.Verdict {
 	var v harness.Verdict
 	races0 := raceErrors()
 	var out Out2
-	completed := guarded(func() { out = run2(t, c) })
+	aux := aux2(c)
+	completed := guarded(func() { run2(t, c, aux, func(o Out2) { out = o }) })
 	if !inProcessRaces(&v, "race-distributor", races0, completed) {
 		v.NonTrivial = true
 		return v
 	}
+	return judge2(v, c, out)
+}
+
+// check2iso: check2 with the case executed in a child process (regression replays; see check1iso).
+func check2iso(t *testing.T, c Case2) harness.Verdict {
+	var v harness.Verdict
+	res, err := runChild(t, "distributor", c, aux2(c))
+	if err != nil {
+		v.Failf("harness-child", "%v", err)
+		return v
+	}
+	judgeRaces(&v, res)
+	var out Out2
+	if res.Obs == nil {
+		return v
+	}
+	if err := json.Unmarshal(res.Obs, &out); err != nil {
+		v.Failf("harness-child", "cannot decode the child's observation: %v", err)
+		return v
+	}
+	return judge2(v, c, out)
+}
+
+func init() {
+	childRunners["distributor"] = func(t *testing.T, raw, auxRaw json.RawMessage, emit func(any)) error {
+		var c Case2
+		var aux Aux
+		if err := json.Unmarshal(raw, &c); err != nil {
+			return err
+		}
+		if err := json.Unmarshal(auxRaw, &aux); err != nil {
+			return err
+		}
+		run2(t, c, aux, func(o Out2) { emit(o) })
+		return nil
+	}
+}
+
+func judge2(v harness.Verdict, c Case2, out Out2) harness.Verdict {
 	if out.BuildErr != "" {
 		v.Failf("harness-distributor-build", "NewDistributor failed: %s", out.BuildErr)
 		return v
@@ -553,6 +610,9 @@ func check2(t *testing.T, c Case2) harness.Verdict {
 	v.NonTrivial = anyBad || anyFiltered || len(c.Subs) > 1 || len(c.RefreshAtMs) > 0
 	return v
 }
+
+// DistributorIsolated only serves regression replays (no generated cases of its own).
+var DistributorIsolated = harness.Define(harness.Opts{Name: "distributor-isolated", Rule: "regression cases of distributor, each executed in a child process", Quick: 0, Thorough: 0}, genCase2, check2iso)
 
 var Distributor = harness.Define(harness.Opts{Name: "distributor", Rule: ruleDistributor, Quick: 500, Thorough: 5000, Crashy: true}, genCase2, check2)
 
